@@ -24,13 +24,14 @@ inductive Err where
   | closedPipe   -- io.ErrClosedPipe (TeeReadCloser after Close/Stop)
   | srcClosed    -- scripted source read after it was closed
   | wfail        -- the scripted writer's error
+  | bodyClosed   -- http.ErrBodyReadAfterClose (MultiReaderCloser.Read treats it as EOF, no Close)
   | panic        -- the call panicked (recovered by the harness)
   | stuck        -- model only: consumer loop ran out of fuel (proved unreachable)
   deriving DecidableEq, Repr, Inhabited
 
 def Err.name : Err → String
   | .eof => "eof" | .boom => "boom" | .tooLarge => "toolarge" | .closedPipe => "closedpipe"
-  | .srcClosed => "srcclosed" | .wfail => "wfail" | .panic => "panic" | .stuck => "stuck"
+  | .srcClosed => "srcclosed" | .wfail => "wfail" | .bodyClosed => "bodyclosed" | .panic => "panic" | .stuck => "stuck"
 
 def showErr : Option Err → String
   | none => "nil"
@@ -86,6 +87,7 @@ structure Src where
   term : Err              -- terminal condition (`eof`, or `boom` = error at offset |content|)
   closable : Bool         -- implements io.Closer
   closes : Nat            -- Close calls so far
+  hasWriteTo : Bool := false  -- also implements io.WriterTo (like strings.Reader, bytes.Buffer, *os.File)
   deriving DecidableEq, Repr
 
 def Src.close (s : Src) : Src := { s with closes := s.closes + 1 }
@@ -115,6 +117,7 @@ structure Wr where
   cap : Option Nat        -- bytes still accepted before failing; none = never fails
   closable : Bool
   closes : Nat
+  readFromBuf : Nat := 0  -- > 0: also implements io.ReaderFrom, reading with buffers of this size
   deriving DecidableEq, Repr
 
 def Wr.write (w : Wr) (d : Bytes) : Wr × Nat × Option Err :=
@@ -161,6 +164,7 @@ def tooLargeErr (v : Version) (e : Option Err) : Option Err :=
   | _, some e => some e
 
 def maxInt64 : Int := 9223372036854775807
+def minInt64 : Int := -9223372036854775808
 
 /-- two's-complement wrap of an `int64` result -/
 def wrapInt64 (x : Int) : Int := (x + 9223372036854775808) % 18446744073709551616 - 9223372036854775808
@@ -194,6 +198,16 @@ def Limit.read (v : Version) (l : Limit) (m : Nat) : Limit × Bytes × Option Er
 def Limit.close (l : Limit) : Limit :=
   if l.closed then l else { l with closed := true, src := l.src.close }
 
+/-- Any way of using a limit reader: reads with any buffer sizes and `Close`s, in any order. -/
+inductive LimitOp where
+  | read (m : Nat)
+  | close
+
+def Limit.run (v : Version) : Limit → List LimitOp → Limit
+  | l, [] => l
+  | l, .read m :: ops => Limit.run v (Limit.read v l m).1 ops
+  | l, .close :: ops => Limit.run v l.close ops
+
 def Limit.fuel (l : Limit) (bufs : List Nat) : Nat := l.src.size + bufs.length + 1
 
 /-- consume until the first error with the given buffer sizes -/
@@ -220,6 +234,11 @@ def Multi.readLoop (m : Nat) : List Src → List Src → Multi × Bytes × Optio
       if d ≠ [] then
         ({ readers := rs, done := dn ++ [r'.closeIfCloser] }, d, if rs = [] then some .eof else none)
       else Multi.readLoop m rs (dn ++ [r'.closeIfCloser])
+    | (r', d, some .bodyClosed) =>
+      -- `errors.Is(err, http.ErrBodyReadAfterClose)`: same as EOF, but the body is NOT closed again
+      if d ≠ [] then
+        ({ readers := rs, done := dn ++ [r'] }, d, if rs = [] then some .eof else none)
+      else Multi.readLoop m rs (dn ++ [r'])
     | (r', d, e) => ({ readers := r' :: rs, done := dn }, d, e)
 
 def Multi.read (M : Multi) (m : Nat) : Multi × Bytes × Option Err :=
@@ -251,8 +270,29 @@ def copyLoop (m : Nat) : Nat → Src → Wr → Src × Wr × Option Err
 /-- `make([]byte, 1024*32)` in `WriteTo` — regenerated from the source on every run (T1). -/
 def copyBufSize : Nat := Generated.C16.writeToBufSize
 
+/-- a terminal as an `io.Copy`-style result: EOF is success -/
+def errOfTerm (e : Err) : Option Err := if e = .eof then none else some e
+
+/-- `WriteTo(w)` of a source that implements `io.WriterTo` (strings.Reader, bytes.Buffer style):
+everything that remains goes to the writer in ONE `Write`; the source advances by what the writer
+accepted; the result is the writer's error, else the source's own terminal (nil for EOF).  The
+script plays no role (no `Read` is issued). -/
+def Src.writeTo (s : Src) (w : Wr) : Src × Wr × Option Err :=
+  if 0 < s.closes then (s, w, some .srcClosed)
+  else if s.rest = [] then (s, w, errOfTerm s.term)
+  else
+    match w.write s.rest with
+    | (w', nw, some ew) => ({ s with rest := s.rest.drop nw }, w', some ew)
+    | (w', nw, none) => ({ s with rest := s.rest.drop nw }, w', errOfTerm s.term)
+
+/-- `io.CopyBuffer(w, r, buf)`:
+`if wt, ok := src.(WriterTo); ok { return wt.WriteTo(dst) }`,
+`if rf, ok := dst.(ReaderFrom); ok { return rf.ReadFrom(src) }` (the scripted writer's `ReadFrom`
+is the same read/write loop with its own buffer size), else the generic loop with `buf`. -/
 def copyBuffer (s : Src) (w : Wr) : Src × Wr × Option Err :=
-  copyLoop copyBufSize (s.size + 1) s w
+  if s.hasWriteTo then s.writeTo w
+  else if 0 < w.readFromBuf then copyLoop w.readFromBuf (s.size + 1) s w
+  else copyLoop copyBufSize (s.size + 1) s w
 
 def Multi.writeLoop (v : Version) : List Src → List Src → Wr → Multi × Wr × Option Err
   | [], dn, w => ({ readers := [], done := dn }, w, none)
@@ -323,6 +363,80 @@ def Tee.close (t : Tee) : Tee :=
 
 def Tee.stop (t : Tee) : Tee :=
   { t with w := if t.wOpen then t.w.closeIfCloser else t.w, wOpen := false }
+
+/-! #### TeeReadCloser used from several goroutines
+Every method body runs under `t.lock` (`Lock(); defer Unlock()`), so a call is: wait for the lock,
+run the whole body, unlock.  `TeeConc` is that transition system for any number of goroutines. -/
+
+inductive TeeOp where
+  | read (m : Nat)
+  | close
+  | stop
+  deriving DecidableEq, Repr
+
+/-- the body of one method call -/
+def Tee.apply (t : Tee) : TeeOp → Tee × Bytes × Option Err
+  | .read m => t.read m
+  | .close => (t.close, [], none)
+  | .stop => (t.stop, [], none)
+
+structure TeeConc where
+  tee : Tee
+  holder : Option Nat                                 -- goroutine inside the critical section
+  waiting : List (Nat × TeeOp)                        -- calls blocked in `t.lock.Lock()`
+  result : Option (Bytes × Option Err)                -- what the holder's body returned
+  returned : List (Nat × TeeOp × Bytes × Option Err)  -- completed calls, latest first
+  deriving Repr
+
+inductive TeeLabel where
+  | call (g : Nat) (op : TeeOp)    -- goroutine g invokes a method: blocks on the mutex
+  | enter (g : Nat) (op : TeeOp)   -- g gets the mutex and runs the body
+  | leave (g : Nat) (op : TeeOp)   -- deferred Unlock, return
+
+def TeeConc.init (t : Tee) : TeeConc :=
+  { tee := t, holder := none, waiting := [], result := none, returned := [] }
+
+def TeeConc.step (c : TeeConc) : TeeLabel → Option TeeConc
+  | .call g op => some { c with waiting := c.waiting ++ [(g, op)] }
+  | .enter g op =>
+    if c.holder = none ∧ (g, op) ∈ c.waiting then
+      match c.tee.apply op with
+      | (t', d, e) => some { c with tee := t', holder := some g, waiting := c.waiting.erase (g, op),
+                                    result := some (d, e) }
+    else none
+  | .leave g op =>
+    match c.holder, c.result with
+    | some h, some (d, e) =>
+      if h = g then some { c with holder := none, result := none, returned := (g, op, d, e) :: c.returned }
+      else none
+    | _, _ => none
+
+/-- run a schedule; `none` if some label is not enabled -/
+def TeeConc.run : TeeConc → List TeeLabel → Option TeeConc
+  | c, [] => some c
+  | c, l :: ls => match c.step l with
+    | some c' => TeeConc.run c' ls
+    | none => none
+
+/-- states reachable from a fresh `TeeConc.init t0` under any schedule, any number of goroutines -/
+inductive TeeConc.Reach (t0 : Tee) : TeeConc → Prop where
+  | init : TeeConc.Reach t0 (TeeConc.init t0)
+  | step {c c' : TeeConc} (l : TeeLabel) : TeeConc.Reach t0 c → c.step l = some c' → TeeConc.Reach t0 c'
+
+/-- bytes handed to callers by the completed calls, oldest first -/
+def TeeConc.returnedData (c : TeeConc) : Bytes :=
+  (c.returned.reverse.map (fun x => x.2.2.1)).flatten
+
+/-- bytes the call inside the critical section is about to return -/
+def TeeConc.pendingData (c : TeeConc) : Bytes :=
+  match c.result with
+  | some (d, _) => d
+  | none => []
+
+/-- the sequence of method bodies executed so far is a plain op sequence on the tee -/
+def Tee.runOps : Tee → List TeeOp → Tee
+  | t, [] => t
+  | t, op :: ops => Tee.runOps (t.apply op).1 ops
 
 def Tee.fuel (t : Tee) (bufs : List Nat) : Nat := t.src.size + bufs.length + 1
 
